@@ -1156,6 +1156,8 @@ class Interp:
         if isinstance(o, ClassRef):
             mi = self.db.method(o.ci, name)
             if mi is not None:
+                if 'classmethod' in mi.decorators:
+                    return FuncRef(mi, bound=o)          # cls.other_factory(...): the class is the first argument
                 return FuncRef(mi)
         r = self.dom.getattr(o, name, node)
         if r is not None:
